@@ -276,10 +276,34 @@ Section Topo.
           -- apply Hun. exact H.
   Qed.
 
-  (** What the sort returns. [inr res]: newest first, i.e. a commit before its predecessors. *)
+  (** Non-empty paths along recorded predecessor edges. *)
+  Definition tpath : N -> N -> Prop := clos_trans_1n N (edge m).
+
+  Lemma tpath_snoc x y z : tpath x y -> edge m y z -> tpath x z.
+  Proof.
+    induction 1 as [a b Hab|a b c Hab _ IH]; intros Hz.
+    - eapply Relation_Operators.t1n_trans; [exact Hab|]. now apply Relation_Operators.t1n_step.
+    - eapply Relation_Operators.t1n_trans; [exact Hab|]. now apply IH.
+  Qed.
+
+  Lemma owner_chain_path stk t : forall o,
+    stack_ok stk -> In (t, true) stk -> owner stk = Some o -> o = t \/ tpath t o.
+  Proof.
+    induction stk as [|[n b] r IH]; intros o Hok Hin Ho; [destruct Hin|].
+    cbn in Hok. destruct Hok as [Hn Hr]. destruct b; cbn in Ho.
+    - inversion Ho; subst o. destruct Hin as [H|H]; [inversion H; now left|].
+      destruct (In_true_owner r t H) as (o' & Eo). rewrite Eo in Hn.
+      destruct (IH o' Hr H Eo) as [->|Hp].
+      + right. now apply Relation_Operators.t1n_step.
+      + right. eapply tpath_snoc; eauto.
+    - destruct Hin as [H|H]; [discriminate|]. eauto.
+  Qed.
+
+  (** What the sort returns. [inr res]: newest first, i.e. a commit before its predecessors.
+      [inl c]: [c] really lies on a cycle of recorded predecessor edges. *)
   Definition topo_post (r : N + list N) : Prop :=
     match r with
-    | inl _ => True
+    | inl c => tpath c c /\ reach_from m start c
     | inr res =>
         NoDup res
         /\ (forall x, In x res <-> reach_from m start x)
@@ -300,8 +324,15 @@ Section Topo.
           specialize (Hord l1 c l2 E p Hcp). rewrite E. apply in_or_app. right. now right.
     - destruct (memN node (t_emitted s)); [discriminate|].
       destruct visited; cbn [negb]; [discriminate|].
-      destruct (memN node (t_visiting s)); [|discriminate].
-      intros H; inversion H; subst r. exact I.
+      destruct (memN node (t_visiting s)) eqn:Ev; [|discriminate].
+      intros H; inversion H; subst r. cbn. split.
+      + apply memN_In in Ev. apply Hvis in Ev. destruct Ev as [Ev|Ev]; [discriminate|].
+        cbn in Hok. destruct Hok as [Hn Hr].
+        destruct (In_true_owner stk node Ev) as (o & Eo). rewrite Eo in Hn.
+        destruct (owner_chain_path stk node o Hr Ev Eo) as [->|Hp].
+        * now apply Relation_Operators.t1n_step.
+        * eapply tpath_snoc; eauto.
+      + apply Hsnd. right. now left.
   Qed.
 
   (** Termination: a node is expanded at most once. *)
